@@ -11,7 +11,9 @@ use crate::run::{Adversary, MpcCase, run_mpc, short};
 use crate::sim::exec::{ExecCfg, Outcome};
 
 pub fn test_case(case: &MpcCase, seen: Option<&Mutex<HashSet<u64>>>) -> Result<CaseInfo, Fail> {
-    let run = run_mpc(case, Adversary::default(), &ExecCfg { record_probes: false, ..Default::default() });
+    // every send stays outstanding for one scheduling step, so that sends joined concurrently
+    // towards one peer are seen by the monitor
+    let run = run_mpc(case, Adversary::default(), &ExecCfg { record_probes: false, slow_sends: true, ..Default::default() });
     let exp = case.expected();
     if run.res.outcomes.iter().any(|o| matches!(o, Outcome::Budget)) {
         return Ok(CaseInfo { undecided: true, ..Default::default() });
